@@ -498,15 +498,40 @@ where
         };
     }
     let handles = c.handles();
+    let mut requests_stuck = false;
     if cfg.strategy == "ondemand" {
-        for r in &cfg.requests {
-            if let Some(fp) = fp_of_node(model, *r) {
-                c.check_fingerprint(fp);
+        // the requests are made on a thread of their own: check_fingerprint / run_to_completion are calls into the code
+        // under test and must not be able to block the harness
+        let shared = Arc::new(c);
+        let c2 = Arc::clone(&shared);
+        let fps: Vec<_> = cfg.requests.iter().filter_map(|r| fp_of_node(model, *r)).collect();
+        let t = std::thread::spawn(move || {
+            for fp in fps {
+                c2.check_fingerprint(fp);
                 std::thread::sleep(Duration::from_millis(2));
             }
+            c2.run_to_completion();
+        });
+        while !t.is_finished() && t0.elapsed() <= watchdog {
+            std::thread::sleep(Duration::from_micros(200));
         }
-        c.run_to_completion();
+        if !t.is_finished() {
+            requests_stuck = true;
+        }
+        let _ = if requests_stuck { None } else { t.join().ok() };
+        c = match Arc::try_unwrap(shared) {
+            Ok(x) => x,
+            Err(_still_shared) => {
+                // the requesting thread is stuck inside the checker: nothing more can be observed
+                return Obs {
+                    joined: false, join_panicked: false, is_done: false, unique: 0, total: 0, max_depth: 0, discoveries: vec![],
+                    disc_panicked: false, assert_panicked: false, report: json!({"present": false}), handles_left: handles.len(),
+                    wall_ms: t0.elapsed().as_millis(),
+                };
+            }
+        };
     }
+    let _ = requests_stuck;
     // join all handles under a watchdog; a handle that never finishes is data, not a hang
     let mut joined = true;
     let mut join_panicked = false;
